@@ -217,6 +217,8 @@ def check(run):
         cancels = [x for x in walk(cnode) if x['k'] == 'call' and (x.get('callee') or '').split('::')[-1] == 'cancel']
         run.check(len(cancels) >= 3, 'R4', 'catch-all-cancels', S + '::run', rn.loc(cnode), 'the catch-all does not cancel timers, listen sockets and UDP sockets', 'cancels all three kinds')
     remove_timer_rule(run)
+    run.clause('R15 element references / iterators into member containers are not used after the call that invalidates them')
+    engines.dangling_element_refs(run, [f for f in fx.repo_functions() if f.file.startswith(simlib.REPO_PREFIX)])
     run.floor('R15', 10)
     run.floor('R5', 10)
     run.floor('R7', 40)
